@@ -116,6 +116,21 @@ def dispatch (st : State) (line : String) : State × String :=
   | [] => (st, "skip")
   | e :: args =>
     if e.startsWith "#" then (State.fresh, "skip")
+    else if e == "store" && args.head? == some "recordsc" then
+      -- `store recordsc <METHOD> <count> <format> <k>`: a records query DURING which k further copies
+      -- of the newest message arrive. The handler holds the store lock until it has written its
+      -- response, so the response is that of a plain query and the arrivals follow it.
+      match args with
+      | ["recordsc", m, c, f, k] =>
+        match parseOp ["records", m, c, f], k.toNat? with
+        | some op, some k =>
+          let (s', o) := st.store.step op
+          let s'' := match s'.items.getLast? with
+            | some e => (List.range k).foldl (fun acc _ => acc.add e) s'
+            | none => s'
+          ({ st with store := s'' }, showObs o)
+        | _, _ => (st, "bad-op")
+      | _ => (st, "bad-op")
     else if e == "store" then
       match parseOp args with
       | some op =>
@@ -126,6 +141,22 @@ def dispatch (st : State) (line : String) : State × String :=
       match args with
       | "store" :: rest =>
         let (opToks, obsToks) := splitBar rest
+        if opToks.head? == some "recordsc" then
+          match opToks with
+          | ["recordsc", m, c, f, k] =>
+            match parseOp ["records", m, c, f], k.toNat? with
+            | some op, some k =>
+              let o := parseObs op obsToks
+              let v := match C20.verdict st.tracker op o with
+                | none => "holds"
+                | some why => "fails concurrent-arrival " ++ asciiOnly why
+              let t' : C20.Tracker := match st.tracker.rev with
+                | e :: _ => ⟨List.replicate k e ++ st.tracker.rev⟩
+                | [] => st.tracker
+              ({ st with tracker := t' }, v)
+            | _, _ => (st, "bad-op")
+          | _ => (st, "bad-op")
+        else
         match parseOp opToks with
         | some op =>
           let o := parseObs op obsToks
